@@ -521,12 +521,26 @@ def ob_hse_two_qubit_closed_form(dim_form):
                 tr_2 = tr_2 + rho[a, c] * rho[c, a]
         d = _det4(rho)
         root = lift(d).real.sqrt() if is_symbolic(rho) else np.sqrt(np.real(d))
-        return (tr_b2.real >= tr_2.real - 4 * root) if is_symbolic(rho) else bool(np.real(tr_b2) >= np.real(tr_2) - 4 * root)
+        # the criterion holds => accepted; violated by more than twice the function's tolerance (1e-4) => rejected.  In between the
+        # verdict is not fixed (pure product states meet the criterion with equality, so an exact comparison is decided by rounding)
+        if is_symbolic(rho):
+            return (tr_b2.real >= tr_2.real - 4 * root, tr_b2.real < tr_2.real - 4 * root - 2e-4)
+        return (bool(np.real(tr_b2) >= np.real(tr_2) - 4 * root), bool(np.real(tr_b2) < np.real(tr_2) - 4 * root - 2e-4))
+
+    def post(res, exp, i):
+        acc, rej = exp
+        r = res if isinstance(res, SymBool) else bool(res)
+        if isinstance(acc, (bool, np.bool_)) and isinstance(rej, (bool, np.bool_)) and isinstance(r, bool):
+            return ((not acc) or r) and ((not rej) or not r)
+        return implies(acc, r) & implies(rej, neg(SymBool(r) if not isinstance(r, SymBool) else r))
+
+    def neg_oracle(exp):
+        return (neg(exp[0]), neg(exp[1]))
 
     def valid(ni):
         return np.real(np.linalg.det(ni["rho"])) > 1e-9
-    return Obligation("has_symmetric_extension.two_qubit_closed_form", cfg, build, call, oracle, valid=valid, tv=False,
-                      extra_patch=HSE_PATCH, neg=neg)
+    return Obligation("has_symmetric_extension.two_qubit_closed_form", cfg, build, call, oracle, post=post, valid=valid, tv=False,
+                      extra_patch=HSE_PATCH, neg=neg_oracle)
 
 
 def ob_hse_sdp_rule(dA, dB, ppt):
@@ -885,11 +899,9 @@ def concrete_tasks(T):
         out.append(ConcreteSeparable("is_separable.concrete_product_mixtures_are_declared_separable", cfg,
                                      lambda rho, dim=dim: is_separable(rho, dim)))
     for dA, dB in [(2, 2), (2, 3), (3, 3), (2, 4)]:
-        for K in ([1, 2, 3, dA * dB + 1] if T else ([2, dA * dB + 1] if dA * dB <= 6 else [2])):
+        for K in ([1, 2, 3, dA * dB + 1] if T else (([1] if (dA, dB) == (2, 2) else []) + [2, dA * dB + 1] if dA * dB <= 6 else [2])):
             for level, ppt in [(1, True), (2, True), (2, False)]:
                 for cplx in (False, True):
-                    if (dA, dB, level, ppt, K) == (2, 2, 2, False, 1):
-                        continue   # a pure product state satisfies the two-qubit closed form with equality: exactly on the boundary
                     if (dA, dB) != (2, 2) and not (cplx or T):
                         continue
                     cfg = {"dims": [dA, dB], "terms": K, "entries": "complex" if cplx else "real", "level": level, "ppt": ppt,
